@@ -103,20 +103,27 @@ int32_t jls_wr_open(struct jls_wr_s ** instance, const char * path) {
 int32_t jls_wr_close(struct jls_wr_s * self) {
     if (self) {
         struct jls_core_s * core = &self->core;
+        int32_t rc_first = 0;  // first failure while writing the tail of the file; the close still completes
         for (size_t i = 0; i < JLS_SIGNAL_COUNT; ++i) {
             struct jls_core_signal_s * signal_info = &core->signal_info[i];
-            jls_fsr_close(signal_info->track_fsr);
+            int32_t rc_fsr = jls_fsr_close(signal_info->track_fsr);
+            if (rc_fsr && !rc_first) {
+                rc_first = rc_fsr;
+            }
             jls_wr_ts_close(signal_info->track_anno);
             jls_wr_ts_close(signal_info->track_utc);
         }
-        jls_core_wr_end(core);
+        int32_t rc_end = jls_core_wr_end(core);
+        if (rc_end && !rc_first) {
+            rc_first = rc_end;
+        }
         int32_t rc = jls_raw_close(core->raw);
         if (core->buf) {
             jls_buf_free(core->buf);
             core->buf = NULL;
         }
         free(self);
-        return rc;
+        return rc ? rc : rc_first;
     }
     return 0;
 }
